@@ -95,10 +95,11 @@ def main():
         for pre_on in (False, True):
             if pre_on:
                 pre = []
+                whole = rng.random() < 0.4        # a pre-constraint that keeps the whole axis leaves room for every later index form
                 for n in shape:
-                    a = rng.randrange(n)
-                    b = rng.randrange(a, n)
-                    pre.append((a, rng.randint(1, 3), b))
+                    a = 0 if whole else rng.randrange(n)
+                    b = n - 1 if whole else rng.randrange(a, n)
+                    pre.append((a, 1 if whole else rng.randint(1, 3), b))
                 slab = "".join("[%d:%d:%d]" % t for t in pre)
                 pre_np = tuple(slice(a, b + 1, s) for a, s, b in pre)
                 stats["with_url_constraint"] += 1
